@@ -1,0 +1,34 @@
+// Copyright 2025 SCION Association
+//
+// Licensed under the Apache License, Version 2.0 (the "License");
+// you may not use this file except in compliance with the License.
+// You may obtain a copy of the License at
+//
+//   http://www.apache.org/licenses/LICENSE-2.0
+//
+// Unless required by applicable law or agreed to in writing, software
+// distributed under the License is distributed on an "AS IS" BASIS,
+// WITHOUT WARRANTIES OR CONDITIONS OF ANY KIND, either express or implied.
+// See the License for the specific language governing permissions and
+// limitations under the License.
+
+//go:build verif
+
+package generic
+
+import (
+	"github.com/scionproto/scion/pkg/addr"
+	"github.com/scionproto/scion/pkg/drkey"
+)
+
+// Accessors for the verification harness (add-only, no behaviour change).
+
+// VerifSerializeLevel2Input exposes Deriver.serializeLevel2Input.
+func VerifSerializeLevel2Input(
+	buf []byte,
+	t drkey.KeyType,
+	proto drkey.Protocol,
+	host addr.Host,
+) (int, error) {
+	return Deriver{Proto: proto}.serializeLevel2Input(buf, t, proto, host)
+}
